@@ -9596,8 +9596,11 @@ def _write_node(node, xml_tree=None, viewport_transform=None):
                 SVG_ATTR_TRANSFORM,
                 SVG_ATTR_FILL,
                 SVG_ATTR_STROKE,
+                SVG_ATTR_FILL_OPACITY,
+                SVG_ATTR_STROKE_OPACITY,
                 SVG_TAG_STYLE,
             ):
+                # Paint is stated by each element from its own properties, a copy on a container would be inherited.
                 continue
             xml_tree.set(key, str(value))
         return xml_tree
@@ -9618,16 +9621,16 @@ def _write_node(node, xml_tree=None, viewport_transform=None):
             xml_tree.set(SVG_ATTR_XMLNS_EV, SVG_VALUE_XMLNS_EV)
         else:
             xml_tree = subxml(xml_tree, SVG_NAME_TAG)
-        if node.x:
-            xml_tree.set(SVG_ATTR_X, str(node.x))
-        if node.y:
-            xml_tree.set(SVG_ATTR_Y, str(node.y))
-        if node.width:
-            xml_tree.set(SVG_ATTR_WIDTH, str(node.width))
-        if node.height:
-            xml_tree.set(SVG_ATTR_HEIGHT, str(node.height))
-        if node.viewbox:
-            xml_tree.set(SVG_ATTR_VIEWBOX, str(node.viewbox))
+        restate(xml_tree, SVG_ATTR_X, node.x)
+        restate(xml_tree, SVG_ATTR_Y, node.y)
+        restate(xml_tree, SVG_ATTR_WIDTH, node.width)
+        restate(xml_tree, SVG_ATTR_HEIGHT, node.height)
+        restate(xml_tree, SVG_ATTR_VIEWBOX, node.viewbox)
+        restate(
+            xml_tree,
+            SVG_ATTR_PRESERVEASPECTRATIO,
+            node.viewbox.preserve_aspect_ratio if node.viewbox else None,
+        )
         vt = None
         try:
             vt = node.viewbox_transform
@@ -9790,6 +9793,8 @@ def _write_node(node, xml_tree=None, viewport_transform=None):
             xml_tree.set(SVG_ATTR_STROKE, str(stroke))
             if stroke_opacity != 1.0 and stroke_opacity is not None:
                 xml_tree.set(SVG_ATTR_STROKE_OPACITY, str(stroke_opacity))
+            else:
+                xml_tree.attrib.pop(SVG_ATTR_STROKE_OPACITY, None)
 
             try:
                 stroke_width = str(node.stroke_width)
@@ -9810,11 +9815,15 @@ def _write_node(node, xml_tree=None, viewport_transform=None):
             xml_tree.set(SVG_ATTR_FILL, str(fill))
             if fill_opacity != 1.0 and fill_opacity is not None:
                 xml_tree.set(SVG_ATTR_FILL_OPACITY, str(fill_opacity))
+            else:
+                xml_tree.attrib.pop(SVG_ATTR_FILL_OPACITY, None)
 
     # Write id
     if hasattr(node, "id"):
         if node.id is not None:
             xml_tree.set(SVG_ATTR_ID, str(node.id))
+        else:
+            xml_tree.attrib.pop(SVG_ATTR_ID, None)
 
     return xml_tree
 
